@@ -733,9 +733,18 @@ func (c *Ctx) ruleTreatAsWithdrawFlow() {
 		return
 	}
 	wi := -1
-	for i, p := range np.Params {
-		if p.Name() == "isWithdraw" {
-			wi = i
+	// the parameter that NewPath stores into Path.IsWithdraw (found by what is done with it, not by its name)
+	for _, b := range np.Blocks {
+		for _, in := range b.Instrs {
+			if st, ok := in.(*ssa.Store); ok {
+				if fa, ok := st.Addr.(*ssa.FieldAddr); ok && fieldOfName(fa) == "IsWithdraw" {
+					for i, p := range np.Params {
+						if st.Val == ssa.Value(p) {
+							wi = i
+						}
+					}
+				}
+			}
 		}
 	}
 	if wi < 0 {
